@@ -152,9 +152,10 @@ func (c *c12run) want(idf func() string) bool {
 }
 
 type c12item struct {
-	kind string // idx | tree | tmut | pmut | pmutsel
-	n    int
-	k    int
+	kind  string // idx | tree | tmut | pmut | pmutsel | ka | kb | kc (key alphabet, c12_keys_test.go)
+	n     int
+	k     int
+	style string
 }
 
 func TestVerifC12(t *testing.T) {
@@ -165,7 +166,9 @@ func TestVerifC12(t *testing.T) {
 
 	r.Rule("inputs: index helpers for every index below the bound; trees of every listed size built by the real Writer from fixed-seed keys; every member key's proof; " +
 		"single-field mutations {key,hash} x {flip bit0 of every byte, take the value of every other node, swap with sibling} (+ whole-node sibling swap, drop-last, append) on every tree node and on every position of every proof for the small sizes. " +
-		"non-trivial = every mutation case, and every member proof in a tree whose last level is not full")
+		"key alphabet (ka/kb/kc cases): three key styles (hex, mixed case with a precomposed letter and an inner blank, compatibility forms with a non-UTF-8 byte); every key k of the listed nodes is replaced by each member of its cluster of near-equal variants " +
+		"(white space / NUL / BOM / zero-width appended or prepended, case changes, truncations and extensions by one byte and by half, Unicode normalisation-equivalent forms, non-UTF-8 bytes, inner blank changes): honest tree against the raw-byte reference, pairwise root inequality, key replaced with the hash kept in the tree and in every proof that carries the node; trees holding a key and a variant of it at two nodes; trees made only of members of one cluster. " +
+		"non-trivial = every mutation case, every near-equal-key case, and every member proof in a tree whose last level is not full")
 	r.Assume("SHA3-256 (valuehash.NewSHA256) collisions do not occur (a mutated key/hash is expected to change the recomputed hash)")
 	r.Assume("keys are fixed-seed pseudo-random strings of 8..20 bytes; the property's 'random keys' are not re-drawn per run")
 
@@ -188,6 +191,51 @@ func TestVerifC12(t *testing.T) {
 		isBoundary[n] = true
 	}
 	var items []c12item
+	// key alphabet (cheap per item, first so that a deadline under load cuts the large trees, not these)
+	kaAllMax := vlib.Pick(r, 8, 33)                                                                    // every node of every size up to here, every style
+	kaSelMax := vlib.Pick(r, 16, 33)                                                                   // selected nodes (root, inner, last inner, first leaf, first of last level, last) of every size up to here, every style
+	kaBig := vlib.Pick(r, []int{33, 65, 130}, boundary)                                                // selected nodes, one style per size (rotating)
+	kaPairsMax := vlib.Pick(r, 2, 6)                                                                   // every ordered pair of the cluster (else base -> variant and variant -> base)
+	kbAllMax := vlib.Pick(r, 6, 10)                                                                    // key + variant at every ordered pair of nodes
+	kbSel := vlib.Pick(r, []int{7, 8, 16}, []int{11, 12, 13, 15, 16, 17, 31, 32, 33, 63, 64, 65, 130}) // root / inner / last inner / first leaf / last x their relatives
+	kcMax := vlib.Pick(r, 12, 33)                                                                      // trees made of one cluster
+	r.Set("key_alphabet_sizes", fmt.Sprintf("styles %v; node variants: every node of sizes 1..%d, selected nodes of sizes up to %d (every style) and of sizes %v (one style per size); all ordered cluster pairs up to size %d; key+variant trees: all node pairs up to size %d, selected pairs for sizes %v; one-cluster trees: sizes 1..%d, every rotation",
+		c12Styles, kaAllMax, kaSelMax, kaBig, kaPairsMax, kbAllMax, kbSel, kcMax))
+	for x, n := range kaBig {
+		if n <= kaSelMax {
+			continue
+		}
+		for _, i := range c12SelPos(n, !r.Thorough()) {
+			items = append(items, c12item{kind: "ka", n: n, k: i, style: c12Styles[x%len(c12Styles)]})
+		}
+	}
+	for _, style := range c12Styles {
+		for n := kaSelMax; n >= 1; n-- {
+			is := c12SelPos(n, false)
+			if n <= kaAllMax {
+				is = is[:0]
+				for i := 0; i < n; i++ {
+					is = append(is, i)
+				}
+			}
+			for _, i := range is {
+				items = append(items, c12item{kind: "ka", n: n, k: i, style: style})
+			}
+		}
+		for _, n := range kbSel {
+			for _, i := range c12SelPos(n, true) {
+				items = append(items, c12item{kind: "kb", n: n, k: i, style: style})
+			}
+		}
+		for n := kbAllMax; n >= 2; n-- {
+			for i := 0; i < n; i++ {
+				items = append(items, c12item{kind: "kb", n: n, k: i, style: style})
+			}
+		}
+		for n := kcMax; n >= 1; n-- {
+			items = append(items, c12item{kind: "kc", n: n, style: style})
+		}
+	}
 	for b := 0; b < idxMax; b += 512 {
 		items = append(items, c12item{kind: "idx", n: b})
 	}
@@ -227,6 +275,21 @@ func TestVerifC12(t *testing.T) {
 			break
 		}
 		switch it.kind {
+		case "ka":
+			c.kaNode(t, it.style, it.n, it.k, it.n <= kaPairsMax, it.n <= kaSelMax, it.n <= 64)
+		case "kb":
+			js := c12Relatives(it.n, it.k)
+			if it.n <= kbAllMax {
+				js = js[:0]
+				for j := 0; j < it.n; j++ {
+					if j != it.k {
+						js = append(js, j)
+					}
+				}
+			}
+			c.kaPair(t, it.style, it.n, it.k, js)
+		case "kc":
+			c.kaClusterTrees(t, it.style, it.n)
 		case "idx":
 			c.indexHelpers(it.n, it.n+512)
 		case "tree":
